@@ -9,9 +9,16 @@
   client contacted (port number or universal address, netid matching the IP version), other
   procedures PROC_UNAVAIL and other programs PROG_UNAVAIL."
 
-  Helper lemmas: Proofs/C16/{Parse,Ip,Reply,Build,Glue}.lean.
+  Over TCP this holds for EVERY call of a connection, not only the first one: `repl_tcp` resets the
+  stored parser state once a call has been answered (`rpc_tcp_state_reset`), so the next call is parsed
+  from scratch and answered with its own XID (`rpc_reply_tcp_every_call`, `rpc_tcp_two_calls`,
+  `rpc_tcp_calls_all_answered`).  (Before the repair of src/proto/rpc.rs the state stayed `End` and every
+  further segment was answered with the reply to the FIRST call — formerly `rpc_tcp_second_call_stale`.)
+
+  Helper lemmas: Proofs/C16/{Parse,Ip,Reply,Build,Glue}.lean, Proofs/RpcFix/Calls.lean.
 -/
 import Masscanned.Proofs.C16.Glue
+import Masscanned.Proofs.RpcFix.Calls
 open Masscanned
 namespace Masscanned.C16
 
@@ -58,24 +65,99 @@ theorem rpc_ip_text (ip : Ip) : showIp ip = Spec.ipText ip := showIp_eq ip
 
 /-! ## 3. the TCP reply -/
 
+/-- **the stored parser state is reset after a reply** (`*pstate = ProtocolState::new()`): whenever
+    `repl_tcp` answers, from whatever stored state, the state it stores is the initial one -/
+theorem rpc_tcp_state_reset (ovf : Bool) (s s' : RpcSt) (ci : ClientInfo) (d r : Bytes)
+    (h : rpcReplTcp ovf s ci d = .ok (s', some r)) : s' = {} :=
+  rpcReplTcp_reset h
+
+/-- consequently a stored state is never the final state `End` of the parser -/
+theorem rpc_tcp_stored_not_done (ovf : Bool) (s s' : RpcSt) (ci : ClientInfo) (d : Bytes) (o : Option Bytes)
+    (h : rpcReplTcp ovf s ci d = .ok (s', o)) : s'.state ≠ .done :=
+  rpcReplTcp_not_done h
+
+/-- the first call of a flow (fresh parser state) -/
 theorem rpc_reply_tcp (ovf : Bool) (ci : ClientInfo) (p : Bytes) (c : Spec.RpcCall) (ip : Ip) (port : Nat)
     (hlen : 4 ≤ p.length) (hc : Spec.parseCall (p.drop 4) = some c)
     (hip : ci.ipDst = some ip) (hport : ci.portDst = some port) (hp : port < 65536) :
     ∃ s r body, rpcReplTcp ovf {} ci p = .ok (s, some r) ∧ Spec.recordMarkOk r = some body ∧
       Spec.rpcReplyOk c body ip port = true := by
-  obtain ⟨a, b, c', d, q, rfl⟩ := list_len4 p hlen
-  have hq : (a :: b :: c' :: d :: q).drop 4 = q := rfl
-  rw [hq] at hc
-  obtain ⟨hcomp, hx, hpr, hv, hqq⟩ := parseCall_facts q c hc
-  obtain ⟨h40, _, hcl⟩ := complete_facts q hcomp
-  have hparse := parse_header_from ovf (decide (a.toNat ≥ 128)) d.toNat q h40 hcl
-  obtain ⟨r, hb, hok, hl⟩ := build_spec (hdrState (decide (a.toNat ≥ 128)) d.toNat q) ci ip port c hip hport hp
-    (be32_lt q 0) hx hpr hv hqq
-  refine ⟨hdrState (decide (a.toNat ≥ 128)) d.toNat q, _, r, ?_, record_mark r hl, hok⟩
-  unfold rpcReplTcp
-  rw [read_frag, hparse]
-  simp only [hdrState, if_true] at hb ⊢
-  rw [hb]
+  obtain ⟨r, body, h1, h2, h3⟩ := rpcReplTcp_fresh_call ovf ci p c ip port hlen hc hip hport hp
+  exact ⟨{}, r, body, h1, h2, h3⟩
+
+/-- **every call, `repl_tcp`**: from the initial parser state — the state stored after ANY answered call
+    (`rpc_tcp_state_reset`) — a complete call behind a record mark is answered with a record mark and the
+    prescribed reply for ITS OWN xid, and the state stored afterwards is the initial one again -/
+theorem rpc_reply_tcp_every_call (ovf : Bool) (ci : ClientInfo) (p : Bytes) (c : Spec.RpcCall) (ip : Ip) (port : Nat)
+    (hlen : 4 ≤ p.length) (hc : Spec.parseCall (p.drop 4) = some c)
+    (hip : ci.ipDst = some ip) (hport : ci.portDst = some port) (hp : port < 65536) :
+    ∃ r body, rpcReplTcp ovf {} ci p = .ok ({}, some r) ∧ Spec.recordMarkOk r = some body ∧
+      Spec.rpcReplyOk c body ip port = true ∧ Spec.be32 body 0 = c.xid :=
+  by
+  obtain ⟨r, body, h1, h2, h3⟩ := rpcReplTcp_fresh_call ovf ci p c ip port hlen hc hip hport hp
+  exact ⟨r, body, h1, h2, h3, rpcReplyOk_xid c body ip port h3⟩
+
+/-- **every call, `proto::repl` with the flow's control block**: on a flow identified as ONC-RPC over TCP
+    whose stored parser state is the initial one (`FreshRpc`: in particular the block stored after any
+    answered call, `resetBlock`), with the SYN-cookie gate open, a segment holding a complete call is
+    answered with the reply for its own xid and the block stored is `resetBlock t` — `FreshRpc` again -/
+theorem rpc_reply_tcp_block (cfg : Cfg) (env : Env) (ci : ClientInfo) (hg : GateOpen ci) (t : Tcb) (hf : FreshRpc t)
+    (p : Bytes) (c : Spec.RpcCall) (ip : Ip) (port : Nat) (hcall : TcpCall p c)
+    (hip : ci.ipDst = some ip) (hport : ci.portDst = some port) (hp : port < 65536) :
+    ∃ r, protoRepl cfg env ci (some t) p = .ok (ci, some (resetBlock t), r) ∧ TcpReplyOk c ip port r ∧
+      FreshRpc (resetBlock t) := by
+  obtain ⟨r, h1, h2⟩ := protoRepl_fresh_call cfg env ci hg t hf p c ip port hcall hip hport hp
+  exact ⟨r, h1, h2, freshRpc_resetBlock hf.1⟩
+
+/-- **two consecutive calls** `c1`, `c2` sent as two segments `p1`, `p2` of the same flow: both are
+    answered, each with the reply for its own call (own xid) -/
+theorem rpc_tcp_two_calls (cfg : Cfg) (env : Env) (ci : ClientInfo) (hg : GateOpen ci) (t : Tcb) (hf : FreshRpc t)
+    (p1 p2 : Bytes) (c1 c2 : Spec.RpcCall) (ip : Ip) (port : Nat) (h1 : TcpCall p1 c1) (h2 : TcpCall p2 c2)
+    (hip : ci.ipDst = some ip) (hport : ci.portDst = some port) (hp : port < 65536) :
+    ∃ r1 r2, C11.feed cfg env ci t [p1, p2] = .ok (resetBlock t, [r1, r2]) ∧
+      TcpReplyOk c1 ip port r1 ∧ TcpReplyOk c2 ip port r2 := by
+  obtain ⟨r1, e1, k1, hf1⟩ := rpc_reply_tcp_block cfg env ci hg t hf p1 c1 ip port h1 hip hport hp
+  obtain ⟨r2, e2, k2, _⟩ := rpc_reply_tcp_block cfg env ci hg _ hf1 p2 c2 ip port h2 hip hport hp
+  refine ⟨r1, r2, ?_, k1, k2⟩
+  rw [C11.feed_cons_ok cfg env ci ci _ _ p1 [p2] r1 e1, C11.feed_cons_ok cfg env ci ci _ _ p2 [] r2 e2,
+    C11.feed_nil]
+  rfl
+
+/-- **all calls of a connection are answered**: any list of segments each holding a complete call, fed
+    one after the other to `proto::repl` with the flow's control block (`C11.feed`, as `tcp::repl` does):
+    no panic, one reply per call, the k-th reply is the prescribed reply to the k-th call (`AllAnswered`),
+    and the block ends with the initial parser state -/
+theorem rpc_tcp_calls_all_answered (cfg : Cfg) (env : Env) (ci : ClientInfo) (hg : GateOpen ci) (ip : Ip) (port : Nat)
+    (hip : ci.ipDst = some ip) (hport : ci.portDst = some port) (hp : port < 65536)
+    (cs : List (Bytes × Spec.RpcCall)) (hcs : ∀ pc ∈ cs, TcpCall pc.1 pc.2) (t : Tcb) (hf : FreshRpc t) :
+    ∃ t' rs, C11.feed cfg env ci t (cs.map (·.1)) = .ok (t', rs) ∧ AllAnswered ip port cs rs ∧
+      FreshRpc t' ∧ (cs ≠ [] → t' = resetBlock t) := by
+  induction cs generalizing t with
+  | nil => exact ⟨t, [], by rw [List.map_nil, C11.feed_nil], trivial, hf, fun h => absurd rfl h⟩
+  | cons pc cs ih =>
+    obtain ⟨p, c⟩ := pc
+    obtain ⟨r, e, k, hf1⟩ := rpc_reply_tcp_block cfg env ci hg t hf p c ip port
+      (hcs (p, c) (List.mem_cons_self ..)) hip hport hp
+    obtain ⟨t', rs, e', k', hf', ht'⟩ := ih (fun pc h => hcs pc (List.mem_cons_of_mem _ h)) (resetBlock t) hf1
+    refine ⟨t', r :: rs, ?_, ⟨k, k'⟩, hf', fun _ => ?_⟩
+    · rw [List.map_cons, C11.feed_cons_ok cfg env ci ci _ _ p _ r e, e']
+    · by_cases hn : cs = []
+      · subst hn
+        rw [List.map_nil, C11.feed_nil] at e'
+        simp only [Except.ok.injEq, Prod.mk.injEq] at e'
+        exact e'.1.symm
+      · rw [ht' hn, resetBlock_idem]
+
+/-- each of the k-th replies, spelled out -/
+theorem rpc_tcp_kth_call_answered (cfg : Cfg) (env : Env) (ci : ClientInfo) (hg : GateOpen ci) (ip : Ip) (port : Nat)
+    (hip : ci.ipDst = some ip) (hport : ci.portDst = some port) (hp : port < 65536)
+    (cs : List (Bytes × Spec.RpcCall)) (hcs : ∀ pc ∈ cs, TcpCall pc.1 pc.2) (t : Tcb) (hf : FreshRpc t)
+    (k : Nat) (p : Bytes) (c : Spec.RpcCall) (hk : cs[k]? = some (p, c)) :
+    ∃ t' rs x body, C11.feed cfg env ci t (cs.map (·.1)) = .ok (t', rs) ∧ rs[k]? = some (some x) ∧
+      Spec.recordMarkOk x = some body ∧ Spec.rpcReplyOk c body ip port = true := by
+  obtain ⟨t', rs, e, ha, _, _⟩ := rpc_tcp_calls_all_answered cfg env ci hg ip port hip hport hp cs hcs t hf
+  obtain ⟨r, hr, x, body, rfl, hm, hok⟩ := allAnswered_get ha k p c hk
+  exact ⟨t', rs, x, body, e, hr, hm, hok⟩
 
 /-! ## 4. the message type is not checked by the responder; the dispatcher's signatures require 0 -/
 
@@ -190,20 +272,24 @@ theorem rpc_no_panic (ovf : Bool) (ci : ClientInfo) (ip : Ip) (port : Nat)
     by_cases hd : s'.state = .done
     · obtain ⟨r, hr⟩ := rpcBuild_total s' ci ip port hip hport
       simp only [hd, if_true, hr]
-      exact ⟨s', _, rfl, hi⟩
+      exact ⟨{}, _, rfl, rpcInv_init⟩
     · exact ⟨s', none, by simp only [hd, if_false], hi⟩
 
-/-! ## finding: on a TCP connection only the first call is answered correctly
+/-! ## within one segment: bytes after the end of a call are not parsed
 
-  The stored parser state is never reset: once `done`, every further segment of the connection is
-  answered again with the reply to the FIRST call (same XID, same body), whatever it contains.
-  (src/proto/rpc.rs: `RpcState::End => pstate.payload.push(*byte)`, and `repl_tcp` builds a reply
-  whenever the state is `End`.)  `rpc_reply_tcp` is therefore stated from the fresh state `{}`. -/
+  Inside `rpc_parse` the final state `End` is absorbing (`RpcState::End => pstate.payload.push(*byte)`):
+  the bytes of a segment that follow the end of a call are dropped — the reply is built for that call, the
+  state is reset, and the NEXT SEGMENT starts a new call.  So calls are answered one per segment; a
+  second call pipelined in the same segment as the first is not answered (observation, outside C16 which
+  speaks of a call; example below). -/
 
-theorem rpc_tcp_done_sticky (ovf : Bool) (ci : ClientInfo) (s : RpcSt) (d : Bytes) (h : s.state = .done) :
-    rpcReplTcp ovf s ci d = rpcReplTcp ovf s ci [] := by
+theorem rpc_tcp_trailing_ignored (ovf : Bool) (ci : ClientInfo) (s s1 : RpcSt) (d e : Bytes)
+    (h : rpcParse ovf s d = .ok s1) (hd : s1.state = .done) :
+    rpcReplTcp ovf s ci (d ++ e) = rpcReplTcp ovf s ci d := by
   unfold rpcReplTcp
-  rw [rpcParse_done ovf s d h, rpcParse_nil]
+  rw [rpcParse_append, h]
+  show (match rpcParse ovf s1 e with | .error x => _ | .ok s' => _) = _
+  rw [rpcParse_done ovf s1 e hd]
 
 /-! ## non-vacuity and tests (closed terms, kernel evaluation) -/
 
@@ -266,18 +352,49 @@ theorem rpc_type_unchecked_example :
      | _ => false) = true ∧
     Spec.parseCall (u32be 7 ++ u32be 1 ++ (mkCall 7 100000 2 3).drop 8) = none := by decide +kernel
 
-/-- witness of the TCP finding: second call (xid 0x22222222, NULL procedure) on a connection whose first
-    call was GETPORT with xid 0x11111111 is answered with the first reply again -/
-theorem rpc_tcp_second_call_stale :
+/-- two calls on one connection (`rpc_tcp_two_calls` on closed terms): GETPORT with xid 0x11111111, then
+    a NULL call with xid 0x22222222 from the state stored after the first reply — the initial one — each
+    answered with its own reply: `8000001c 11111111 …` and `80000018 22222222 …` -/
+theorem rpc_tcp_second_call_own_xid :
     (match rpcReplTcp true {} ci4 (tcpMsg (mkCall 0x11111111 100000 2 3)) with
      | .ok (s, some r1) =>
+       decide (s = {}) && hexOf r1 == "8000001c1111111100000001000000000000000000000000000000000000006f" &&
        (match rpcReplTcp true s ci4 (tcpMsg (mkCall 0x22222222 100000 2 0)) with
-        | .ok (_, some r2) =>
-          r2 == r1 && hexOf r2 == "8000001c1111111100000001000000000000000000000000000000000000006f" &&
+        | .ok (s2, some r2) =>
+          decide (s2 = {}) && hexOf r2 == "80000018222222220000000100000000000000000000000000000000" &&
           (match Spec.recordMarkOk r2 with
-           | some body => !Spec.rpcReplyOk ⟨0x22222222, 2, 100000, 2, 0⟩ body ip4 111
+           | some body => Spec.rpcReplyOk ⟨0x22222222, 2, 100000, 2, 0⟩ body ip4 111
            | none => false)
         | _ => false)
+     | _ => false) = true := by decide +kernel
+
+/-- the same through `proto::repl` and the control block (`C11.feed`), with a third call (DUMP v2) and an
+    incomplete segment in between: `none` for the incomplete one, the others answered with their own xid -/
+private def ciT : ClientInfo := { ci4 with transport := some 6, cookie := some 7 }
+private def cfgT : Cfg :=
+  { mac := [2, 0, 0, 0, 0, 1], selfIps := none, deny := none, k0 := 1, k1 := 2, logger := .none, level := 0, ovf := true }
+private def envT : Env := { httpDate := [], unixSecs := 0 }
+example :
+    (match C11.feed cfgT envT ciT {}
+        [tcpMsg (mkCall 0x11111111 100000 2 3), tcpMsg (mkCall 0x22222222 100000 2 0),
+         (tcpMsg (mkCall 0x33333333 100000 2 4)).take 30, (tcpMsg (mkCall 0x33333333 100000 2 4)).drop 30] with
+     | .ok (t, rs) =>
+       decide (t.protoId = PROTO_RPC_TCP ∧ t.protoState = some (.rpc {})) &&
+       rs.map (·.map (fun r => hexOf (r.take 8))) ==
+         [some "8000001c11111111", some "8000001822222222", none, some "8000005833333333"]
+     | .error _ => false) = true := by decide +kernel
+-- hypotheses of `rpc_tcp_two_calls` / `rpc_tcp_calls_all_answered` on these terms
+example : GateOpen ciT ∧ FreshRpc { protoId := PROTO_RPC_TCP } ∧
+    FreshRpc { protoId := PROTO_RPC_TCP, protoState := some (.rpc {}) } ∧
+    TcpCall (tcpMsg (mkCall 0x11111111 100000 2 3)) ⟨0x11111111, 2, 100000, 2, 3⟩ ∧
+    TcpCall (tcpMsg (mkCall 0x22222222 100000 2 0)) ⟨0x22222222, 2, 100000, 2, 0⟩ := by
+  refine ⟨by unfold GateOpen; decide, ⟨rfl, .inl rfl⟩, ⟨rfl, .inr rfl⟩, ⟨by decide, by decide +kernel⟩,
+    ⟨by decide, by decide +kernel⟩⟩
+-- observation: two calls pipelined in ONE segment — only the first is answered (`rpc_tcp_trailing_ignored`),
+-- and the following segment starts a new call
+example :
+    (match rpcReplTcp true {} ci4 (tcpMsg (mkCall 0x11111111 100000 2 3) ++ tcpMsg (mkCall 0x22222222 100000 2 0)) with
+     | .ok (s, some r) => decide (s = {}) && hexOf r == "8000001c1111111100000001000000000000000000000000000000000000006f"
      | _ => false) = true := by decide +kernel
 
 /-! ### tests of the address formatters against the RFC 5952 texts (both equal by `rpc_ip_text`) -/
@@ -313,13 +430,20 @@ example : showV4 [10, 0, 200, 255] = txt "10.0.200.255" ∧ Spec.ipv4Text [10, 0
 #print axioms rpc_parse_header
 #print axioms rpc_reply_udp
 #print axioms rpc_ip_text
+#print axioms rpc_tcp_state_reset
+#print axioms rpc_tcp_stored_not_done
 #print axioms rpc_reply_tcp
+#print axioms rpc_reply_tcp_every_call
+#print axioms rpc_reply_tcp_block
+#print axioms rpc_tcp_two_calls
+#print axioms rpc_tcp_calls_all_answered
+#print axioms rpc_tcp_kth_call_answered
 #print axioms rpc_sig_udp
 #print axioms rpc_sig_tcp
 #print axioms rpc_reply_type_silent
 #print axioms rpc_no_panic
-#print axioms rpc_tcp_done_sticky
+#print axioms rpc_tcp_trailing_ignored
 #print axioms rpc_type_unchecked_example
-#print axioms rpc_tcp_second_call_stale
+#print axioms rpc_tcp_second_call_own_xid
 
 end Masscanned.C16
